@@ -152,6 +152,8 @@ claims = {
             "POSIX durability model; fault-dependent counterexamples are confirmed by concrete re-execution, not natively.", "DESIGN.md 5 (C11), 7 (H4)"),
     "C03": ("The real DB.sync, file.ReplicaClient.WriteLTXFile, WriteTXIDFile and the follow loop are killed immediately before each of their file-system mutating operations: in the tree left behind every name that parses as an LTX file and the TXID sidecar is a complete file, files acknowledged earlier are still present, the sidecar holds the old or the new value; after a restart (new DB object, real Open with removeTmpFiles, real Pos / file-backend listing) stale temp files are gone and the position is the highest complete level-0 file; the follower resumes from its sidecar.",
             "Kill = stop before a file-system operation of the litestream process; WAL-cursor resumption after the restart is C04.", "DESIGN.md 5 (C03)"),
+    "C02": ("The real DB.SnapshotReader (snapshotPosition, snapshotWALEndOffset, snapshotReader, pageMap with its byte budget, writeLTXFromDB) runs on a database file and a WAL generated from an abstract history with symbolic page numbers and images: the snapshot published as (1..pos) holds every page once, has the size at pos, and every page image is the one at position pos - nothing committed later in the same WAL generation, nothing from a generation the application started after the last sync, nothing from an open transaction - or the call fails. MaxLTX returns the highest parsing name whatever else is in the directory; pageMap cuts only at commit frames (C09's budget harness); each level-0 file is numbered pos+1 and holds committed pages only (C01's sync harness).",
+            "E-WAL is an assumption about SQLite. H8 (stale end offset after an application WAL restart) was found here and fixed.", "DESIGN.md 5 (C02), 7 (H8)"),
 }
 na_reasons = {
     "C12": "quantifies over goroutine interleavings and the Go memory model; a sequential SSA symbolic interpreter cannot soundly decide races or deadlocks and no concurrency-aware engine for Go exists in this image (DESIGN.md 6)",
@@ -367,6 +369,23 @@ props["C03"] = {
     ],
     "stubs": ["file-system model (symfs) with kill points", "ReplicaClient mock", "codec model as in C06"],
     "outside": ["kill points inside SQLite or cgo", "kills during compaction and retention beyond the file backend's WriteLTXFile", "power loss (C11)"],
+}
+
+props["C02"] = {
+    "level": "model_checking", "validate": 6,
+    "runs": [
+        run("root", "VxC02Snapshot", {}, {}),
+        run("root", "VxC02MaxLTX", {}, {}),
+        run("root", "VxC09Budget", {"PS": 8, "K": 2, "_tactic": 1}, {"PS": 8, "K": 3, "_tactic": 1}, note="pageMap cuts only at commit frames (shared with C09)"),
+        run("root", "VxC01Sync", {}, {}, note="each level-0 file holds committed pages only and is numbered pos+1 (shared with C01)"),
+    ],
+    "assumptions": [
+        "E-WAL (DESIGN.md C04): a WAL generation has fixed salts; the application restarts the WAL only when it is fully backfilled, so after a restart the database file holds the previous generation's final state; two generations never share both salts",
+        "histories: 1-2 transactions of the old generation covered by level-0 files up to the position; 0-2 later transactions either appended to the same generation (plus an optional open transaction) or in a new generation after a restart; the process is the same one that synced last, or a fresh one",
+        "the database has 3 pages of 512 bytes; each transaction is one frame",
+    ],
+    "stubs": ["file-system model", "WAL images with checksums computed by construction", "io.Pipe buffer model", "codec model as in C06"],
+    "outside": ["the atomicity of capturing the position and taking the checkpoint lock under real concurrency (C12)", "SQLite's guarantee that a commit frame closes a transaction", "multi-frame transactions in the snapshot harness (covered by the pageMap harnesses of C09)"],
 }
 
 rewrites = [
